@@ -548,8 +548,9 @@ func runC01(c *Ctx) {
 	ruleDotTable(c)
 	ruleDotStructure(c)
 	ruleDataSource(c)
-	ruleLineLimitCounting(c) // the limiter below the reader counts octet by octet, independent of read boundaries
-	ruleDrains(c)            // the reader has one consumer at a time: the drain follows the backend's callback in the same goroutine, it never reads beside it
+	ruleLineLimitCounting(c)  // the limiter below the reader counts octet by octet, independent of read boundaries
+	ruleWriteDeadlineOwner(c) // "independent of how the stream is cut into network segments": no reply arms a READ deadline that would cut a slow body short
+	ruleDrains(c)             // the reader has one consumer at a time: the drain follows the backend's callback in the same goroutine, it never reads beside it
 	ruleBudgetNotEarly(c)
 	ruleStreamLayersReadOnly(c)
 	// the limit the message's lines are measured against is the configured one: a handler that lowers it for the
